@@ -78,6 +78,23 @@ CLAIMS = {
           "part files of a refused operation are allowed. A 'different file scheme' append to a file without row groups "
           "is not required to be refused."),
     technique="TLA+ spec with failure actions + TLC; spec->code replay of failing histories; refusal catalogue"),
+ "C20": dict(
+    level="model_checking",
+    text=("spec/Handles.tla models the only state read-only operations share and mutate - the schema tree's children "
+          "dicts - with one action per step of the slice path (reset, one insertion per child) and of readers (lookups, "
+          "dict iteration). TLC explores ALL interleavings of 2-3 threads: the contract (no operation fails because of "
+          "another, parent undisturbed, termination) holds with private element dicts and is violated with shared ones. "
+          "On the real code a deterministic sys.settrace scheduler runs every single-preemption schedule of ordered "
+          "operation pairs on one shared handle (every line event of A as the switch point, B to completion, A resumed), "
+          "compares each result with the operation run alone, and TLC validates every run of a handle-deriving A against "
+          "HandlesTrace (the sampled children of the parent at the switch must explain B's outcome). Part-file writers "
+          "sharing a schema object are scheduled the same way and their bytes compared with the sequential bytes."),
+    design_ref="DESIGN.md section 5 C20, section 10",
+    note=("On the real code only schedules with ONE preemption are exhaustive (quick: stride 5 on the longest operations; "
+          "thorough: every point, every pair, and every bytecode for slice); more preemptions and 3 threads are covered "
+          "at model level. Cython functions are atomic under the GIL. 2..16 free-running threads are not used as an "
+          "oracle (only deterministic schedules are reported)."),
+    technique="TLA+ spec + TLC over all interleavings; deterministic schedule enumeration on the real code; trace validation"),
 }
 
 NOT_BUILT = "not built yet (construction order in DESIGN.md section 9)"
